@@ -120,6 +120,20 @@ theorem repeat_value_forever {α} (v : α) (m : Nat) (t : Int) :
   · simpa [chain, repeatValueP, wait] using repeat_forever_chainFrom v none m t
   · simpa [chain, repeatValueP, wait] using repeat_forever_chainFrom v (some (-1)) m t
 
+/-- **sim_eq_chain_quiet.** The recording of the virtual-time scheduler model (what the correspondence
+compares with the real TestScheduler run: subscribe action at `sub ≥ 0`, dispose action at `disp`)
+is exactly the producer's chain — the object of the theorems above — whenever the run is *quiet*
+(`Pure.Sources.quiet`: every action runs before the dispose time, never more than 100 consecutive
+same-instant actions so that the scheduler's spin counter does not move the clock, well-formed
+emissions, no escaping exception, and the chain ends within `n` actions). -/
+theorem sim_eq_chain_quiet {σ α} (P : Producer σ α) (n fuel : Nat) (sub disp : Int) (h0 : 0 ≤ sub) (hlt : sub < disp)
+    (hq : match P.first with
+          | none => True
+          | some (s, d) => quiet P disp n (sub + wait d) (if sub + d.getD 0 > sub then 0 else 1) s = true)
+    (hf : n + 2 ≤ fuel) :
+    (Sim.record P fuel sub disp).out = chain P n sub :=
+  record_eq_chain P n fuel sub disp h0 hlt hq hf
+
 /-! ## AS-IS section: the defect of the pinned tree (DEFECT, not part of the claimed behaviour)
 
 `generate_with_relative_time` tests `assert time`; a zero delay (0, 0.0, timedelta(0)) is falsy, so
@@ -144,6 +158,9 @@ example : whileLoop { cond := fun (s : Nat) => .ok (s < 5), iter := fun s => if 
     = [.next 0, .next 1, .next 2, .error "boom"] := by decide
 example : delayLoop asisFns (fun s => .ok (if s = 0 then 0 else 3)) 10 100 0
     = [(100, .next 0), (103, .next 1), (103, .completed)] := by decide
+/-- `quiet` holds on a concrete run: range(5, 0, -2) subscribed at 200, disposed at 1000 -/
+example : (Sim.record (rangeP 5 0 (-2)) 12 200 1000).out = chain (rangeP 5 0 (-2)) 10 200 :=
+  sim_eq_chain_quiet _ 10 12 200 1000 (by decide) (by decide) (by show quiet _ _ _ _ _ _ = true; decide) (by decide)
 example : chain (repeatValueP 'x' (some 2)) 5 0 = [(0, .next 'x'), (0, .next 'x'), (0, .completed)] := by decide
 
 end C37
